@@ -23,7 +23,7 @@ BASES = ["http://x.fr/a/b.html", "https://www.y.com", "HTTP://X.FR:80/a/../c?q#f
 HREF_PREFIX = ["", "/", "../", "//z.org/", "http://x.fr/a/", "#", "javascript:", "mailto:", "HTTP://X.FR/", "http://nope.zzzz/", "?", "/c?q", "http://x.fr/c?q#"]
 BOUNDS = {
     "quick": "urls_from_html: 5 one-anchor documents (exact expected list) + 14 document skeletons (three quoting styles, upper-case names, holes in tag-syntax positions, unclosed tag, script blocks with holes in the tag names, entity, non-ASCII) x hole strings of length 0..2 over all code points, as str and as its UTF-8 bytes; "
-             "links_from_html: 3 bases x 13 href prefixes x href holes of length 0..2 x canonicalize / unique / strip_fragment",
+             "script blocks whose opening and closing tag names are 'script' in every combination of letter cases; links_from_html: 3 bases x 13 href prefixes x href holes of length 0..2 x canonicalize / unique / strip_fragment",
     "thorough": "holes of length 0..3",
 }
 STUBS = ["see C01; html.unescape interpreted from the stdlib source (entity table lookups as disjunctions)", "UTF-8 encode / decode models"]
@@ -54,6 +54,16 @@ def links(st, base, pref, n, canon, unique, sf):
     run_prop(st, "links_postconditions", S.links_postconditions, BASES[base], doc, canon, unique, sf)
 
 
+def script_case(st, attrs):
+    # the two tag names are 'script' in every letter case (each letter symbolic over its two cases)
+    def name(tag):
+        out = []
+        for i, ch in enumerate("script"):
+            out.append(sym_str(st, "%s%d" % (tag, i), 1, [(ord(ch), ord(ch)), (ord(ch.upper()), ord(ch.upper()))]))
+        return cat(*out)
+    run_prop(st, "script_blocks_are_skipped", S.script_blocks_are_skipped, name("o"), name("c"), attrs)
+
+
 def items(tier):
     quick = tier == "quick"
     nmax = 2 if quick else 3
@@ -67,6 +77,8 @@ def items(tier):
     for i in range(len(ONE)):
         for n in range(0, nmax + 1):
             out.append({"fn": "one", "params": {"i": i, "n": n}, "name": "one anchor %d n=%d" % (i, n), "weight": 8 ** n})
+    for attrs in ("", ' type="text/javascript"'):
+        out.append({"fn": "script_case", "params": {"attrs": attrs}, "name": "script block, tag names in every letter case, attrs=%r" % attrs, "weight": 50})
     # self links of a base that carries a fragment, every option combination
     for pref in (11, 12):
         for n in range(0, 2):
